@@ -24,3 +24,27 @@ CHECKS["C08"] = {
                    "+,-,*,neg,join,meet is checked against an independently computed hull."),
     "level_note": "Alphabet bounds R; harness concrete semantics; GMP-backed z_number used to build operands.",
 }
+
+CHECKS["C20"] = {
+    "level": "exploration",
+    "technique": "exhaustive boundary-alphabet tables of big-number operations recomputed with Python integers; brute-force evaluation of all small linear expressions/constraints over a valuation box",
+    "design_ref": "DESIGN.md §2 C20",
+    "jobs": [
+        {"bin": "c20_numbers", "args": ["--part", "numbers"], "pipe": "harness/pyref/check_numbers.py",
+         "deadline": {"quick": 200, "thorough": 900}},
+        {"bin": "c20_numbers", "args": ["--part", "linear"], "deadline": {"quick": 200, "thorough": 900}},
+    ],
+    "rule": ("z_number: all ordered pairs of the boundary alphabet {0,+-1,2,3,7,+-(2^31-1..2^31+1),+-2^32,+-(2^63-1..2^63+1),"
+             "+-2^64,+-(2^64+1),+-10^30} (29 values; 61 thorough) x {+,-,*,/,%,&,|,^,comparisons, compound assignments}, "
+             "shifts by {0,1,2,31,32,63,64,65,70}, unary ops, int64/uint64/string/raw-data round trips; q_number: 45 "
+             "fractions x all pairs; safe_i64: all int64-representable pairs (exact result or abort, never wrapped). "
+             "Every row is recomputed by harness/pyref/check_numbers.py. Linear layer: all expressions c1*x+c2*y+k with "
+             "coefficients in [-C,C] (C=2 quick, 3 thorough, built with explicit zero coefficients, plus 2^40-scaled ones) "
+             "x all 4 constraint kinds; sums/differences of all pairs; scaling; renaming; negate(); tautology/contradiction; "
+             "normalize() of all two-inequality systems; all decided on every valuation of [-4,4]^2. "
+             "distinct_nontrivial = rows whose result differs from both operands and from 0/1, plus distinct constraints."),
+    "assumptions": ["Python 3 int / fractions.Fraction as arithmetic reference", "division by zero excluded (precondition)"],
+    "level_text": ("Complete enumeration of the stated operand alphabets on the real z_number/q_number/safe_i64/linear-constraint "
+                   "classes with an independent big-integer reference; covers the 2^31/2^63/2^64 representation boundaries."),
+    "level_note": "Alphabet and box bounds; Python big integers trusted.",
+}
